@@ -610,8 +610,11 @@ def mon_inbound(tr):
                         continue
                     if (d["name"] == "publish" and "topic" in d and d["qos"] < 3) or (d["name"] == "pubrel" and "id" in d):
                         fedq.append(d)
-            elif l.startswith("ev close ") or (l.startswith(("ret ", "exch ")) and "netclosed" in l.split()[-1].split("+")):
-                live, fedq = False, []      # (a write that finds the connection closed already closes nothing: no event, same effect)
+            elif l.startswith("ev close "):
+                live, fedq = False, []
+            elif l.startswith(("ret ", "exch ")) and "netclosed" in l.split()[-1].split("+"):
+                live = False      # a write that finds the connection closed already closes nothing (no event): what is fed from now on
+                                  # goes to the next connection, what the read routine has buffered may still be returned
             elif l.startswith("rs err ") and not (l.split()[2] == "store" and any(x.startswith("ev savefail 1") for x in lines)):
                 live, fedq = False, []      # every other reader error takes the client offline
             if l.startswith("rs msg ") or l.startswith("rs big "):
@@ -666,7 +669,9 @@ def mon_inbound(tr):
                         # the client answers a PUBREL: retransmissions of that very message which the broker sent right before the PUBREL
                         # are behind it (they may look like a later message and must not be taken for what a later return hands out)
                         kk = next((j for j, e in enumerate(fedq) if e["name"] == "pubrel" and e.get("id") == d.get("id")), None)
-                        if kk is not None and all(e["name"] == "publish" and e["qos"] == 2 and e.get("id") == d.get("id") for e in fedq[:kk]):
+                        if kk is not None and all(e["name"] == "publish" and e["qos"] == 2 and
+                                                  (e.get("id") == d.get("id") or e.get("id") in markers or e.get("id") in cycle_open or e.get("id") in owned)
+                                                  for e in fedq[:kk]):
                             fedq = fedq[kk + 1:]
                         if d.get("id") in markers:
                             out.append(("inbound:pubcomp-before-release", "PUBCOMP %04x written while the record of that delivery cycle is still stored: "
@@ -692,8 +697,9 @@ def mon_inbound(tr):
                                 out.append(("inbound:ack-before-ownership", "%s %04x written during `%s`, before the application called ReadSlices again" % (name, pid, op[:30])))
                             owed = None
                             acked_here.add((i, pid))
-                        elif name == "pubrec" and pid in markers and (marker_op.get(pid, -1) < i or (i, pid) in acked_here):
-                            pass    # duplicate confirmed again: ownership of that message was taken before
+                        elif name == "pubrec" and pid in markers and (pid in cycle_open or pid in owned or (i, pid) in acked_here) and \
+                                (marker_op.get(pid, -1) < i or (i, pid) in acked_here):
+                            pass    # duplicate confirmed again: ownership of that message was taken before, its cycle is still open
                         elif name == "puback" or name == "pubrec":
                             out.append(("inbound:ack-without-return", "%s %04x written without a returned message owing it" % (name, pid)))
         # "none is returned without eventually being acknowledged": due once the application read again and that call went on
